@@ -678,33 +678,66 @@ theorem pres_rebalanceApi (s : Sys) (ms : List Mig) (c : Comp) (hc : c ≠ .book
 end Varpulis.RaftSync
 namespace Varpulis.RaftSync
 
-theorem pres_drain (s : Sys) (id : String) (ms : List Mig) (c : Comp)
-    (hc : c = .status ∨ c = .conns ∨ c = .policy) (h : CompSync c s.l s.r) :
+theorem applyAll_append (s : RState) (a b : List Cmd) : applyAll s (a ++ b) = applyAll (applyAll s a) b := by
+  simp [applyAll, List.foldl_append]
+
+theorem pres_drain (s : Sys) (id : String) (ms : List Mig) (c : Comp) (hc : c ≠ .book) (h : CompSync c s.l s.r) :
     CompSync c (step s (.drain id ms)).l (step s (.drain id ms)).r := by
-  simp only [step, stepL, emits, applyAll_nil]
+  simp only [step, stepL, emits]
   cases hw : s.l.workers.get id with
-  | none => exact h
+  | none => simp only [applyAll_nil]; exact h
   | some w0 =>
     simp only
     by_cases hd : w0.status = .draining
-    · simp only [hd, ↓reduceIte]; exact h
-    · simp only [hd, ↓reduceIte]
-      rcases hc with rfl | rfl | rfl
-      · intro k w' e hw' he
-        simp only [AMap.get_del] at hw'
+    · simp only [hd, ↓reduceIte, applyAll_nil]; exact h
+    · simp only [hd, ↓reduceIte, applyAll_append, applyAll_groupsUpdated, applyAll_cons, applyAll_nil, applyCmd]
+      -- the local workers other than `id` keep status and static data through the drain
+      have hproj : ∀ {α : Type} (P : LWorker → α), BookFree P → ∀ k, k ≠ id →
+          ((migrateAll { s.l with workers := s.l.workers.upd id fun w => { w with status := .draining } } ms).1.workers.get k).map P
+            = (s.l.workers.get k).map P := by
+        intro α P hP k hk
+        have h1 := congrFun (migrateAll_proj P hP
+          { s.l with workers := s.l.workers.upd id fun w => { w with status := .draining } } ms) k
+        simp only [proj, AMap.get_upd, hk, ↓reduceIte] at h1
+        exact h1
+      cases c with
+      | book => exact absurd rfl hc
+      | wset =>
+        intro k
+        simp only [AMap.get_del]
+        by_cases hk : k = id
+        · simp [hk]
+        · simp only [hk, ↓reduceIte]
+          rw [hproj LWorker.static bookFree_static k hk]; exact h k
+      | status =>
+        intro k w' e hw' he
+        simp only [AMap.get_del] at hw' he
         by_cases hk : k = id
         · simp [hk] at hw'
-        · simp only [hk, ↓reduceIte] at hw'
-          have h1 := congrFun (migrateAll_proj LWorker.status bookFree_status
-            { s.l with workers := s.l.workers.upd id fun w => { w with status := .draining } } ms) k
-          simp only [proj, hw', Option.map_some, AMap.get_upd, hk, ↓reduceIte] at h1
+        · simp only [hk, ↓reduceIte] at hw' he
+          have h1 := hproj LWorker.status bookFree_status k hk
+          simp only [hw', Option.map_some] at h1
           cases hx : s.l.workers.get k with
           | none => simp [hx] at h1
           | some w =>
             simp only [hx, Option.map_some, Option.some.injEq] at h1
             rw [h1]; exact h k w e hx he
-      · intro k; simp only; rw [(migrateAll_rest ..).1]; exact h k
-      · simp only [CompSync]; rw [(migrateAll_rest ..).2.1]; exact h
+      | groups =>
+        intro k
+        simp only [AMap.get_foldl_put_reverse]
+        by_cases hk : k ∈ (migrateAll { s.l with workers := s.l.workers.upd id fun w => { w with status := .draining } } ms).1.groups.keys
+        · simp [hk]
+        · simp only [hk, ↓reduceIte]
+          have h1 := AMap.get_eq_none_of_not_mem _ k hk
+          have h2 := migrateAll_groups_isSome { s.l with workers := s.l.workers.upd id fun w => { w with status := .draining } } ms k
+          rw [h1] at h2 ⊢
+          have h3 : s.l.groups.get k = none := by
+            cases hx : s.l.groups.get k with
+            | none => rfl
+            | some _ => simp [hx] at h2
+          rw [← h k, h3]
+      | conns => intro k; simp only; rw [(migrateAll_rest ..).1]; exact h k
+      | policy => simp only [CompSync]; rw [(migrateAll_rest ..).2.1]; exact h
 
 theorem pres_connCreate (s : Sys) (n b : String) (v : Bool) (c : Comp) (h : CompSync c s.l s.r) :
     CompSync c (step s (.connCreate n b v)).l (step s (.connCreate n b v)).r := by
@@ -934,7 +967,7 @@ theorem step_preserves (s : Sys) (op : Op) (c : Comp) (hk : knownCell op.kind c 
   | teardown g ts => exact pres_teardown s g ts c (by rintro rfl; simp [knownCell, Op.kind] at hk) h
   | migrate p pid ok => exact pres_migrate s p pid ok c (by rintro rfl; simp [knownCell, Op.kind] at hk) h
   | rebalanceApi ms => exact pres_rebalanceApi s ms c (by rintro rfl; simp [knownCell, Op.kind] at hk) h
-  | drain id ms => exact pres_drain s id ms c (by cases c <;> simp [knownCell, Op.kind] at hk ⊢) h
+  | drain id ms => exact pres_drain s id ms c (by rintro rfl; simp [knownCell, Op.kind] at hk) h
   | connCreate n b v => exact pres_connCreate s n b v c h
   | connUpdate n bn b v => exact pres_connUpdate s n bn b v c h
   | connDelete n => exact pres_connDelete s n c h
